@@ -65,7 +65,11 @@ def summary_violations(ds, feats, where, case, tags, kind):
     return out
 
 
-def _write(path, data, comp, mode="append", feat="deform", extra=True):
+def _write(path, data, comp, mode="append", feat="deform", extra=True,
+           other=None):
+    """other: (path, data) of a second measurement that is written in the
+    same process, one part after each part of the first (two recordings
+    converted side by side)."""
     from dclab.rtdc_dataset.writer import RTDCWriter
     n = len(data)
     pos = 0
@@ -77,6 +81,13 @@ def _write(path, data, comp, mode="append", feat="deform", extra=True):
             hw.store_feature(feat, data[pos:pos + p])
             if extra:
                 hw.store_feature("area_um", np.arange(pos, pos + p) * 2.0 + 1)
+        if other is not None:
+            with RTDCWriter(other[0], mode="reset" if first else mode) as hw:
+                if first:
+                    hw.store_metadata(gen.complete_meta(n, fl=False))
+                hw.store_feature(feat, other[1][pos:pos + p])
+                hw.store_feature("area_um",
+                                 np.arange(pos, pos + p) * 3.0 + 2)
         first = False
         pos += p
 
@@ -104,7 +115,14 @@ def _comp_case(args):
         data = BASE[:n].copy()
         nanpos = [i for i in range(n) if bits >> i & 1]
         data[nanpos] = np.nan
-        if reopen:
+        path2 = path.with_name(path.stem + "_b.rtdc")
+        if reopen == 2:
+            # a second file with the same features, NaN where the first
+            # has values, written alternately with the first
+            data2 = np.where(np.isnan(data), BASE[:n] + 0.25, np.nan)
+            data2[-1] = 0.5
+            _write(path, data, comp, other=(path2, data2))
+        elif reopen:
             _write(path, data, comp)
         else:
             _write_one_writer(path, data, comp)
@@ -127,6 +145,14 @@ def _comp_case(args):
                 ds, ["deform", "area_um"],
                 "dclab.rtdc_dataset.writer:RTDCWriter.write_ndarray", case,
                 tags, f"appends {comp} NaN at {nanpos}")
+        if reopen == 2:
+            with dclab.new_dataset(path2) as ds:
+                out += summary_violations(
+                    ds, ["deform", "area_um"],
+                    "dclab.rtdc_dataset.writer:RTDCWriter.write_ndarray",
+                    case, dict(tags, file="second"),
+                    f"second file written alternately, appends {comp}")
+            path2.unlink()
     if path.exists():
         path.unlink()
     return 2 ** n, nontrivial, out
@@ -421,6 +447,8 @@ def run(ctx):
     comps = [c for n in ((4, 6) if ctx.quick else (3, 4, 5, 6))
              for c in compositions(n)]
     items = [(c, ro, scratch) for c in comps for ro in (False, True)]
+    # two files written alternately in one process (N = 4)
+    items += [(c, 2, scratch) for c in compositions(4)]
     res = par.pmap(_comp_case, items)
     evals = sum(r[0] for r in res)
     nontriv = sum(r[1] for r in res)
